@@ -363,7 +363,8 @@ structure BMOf (α β : Type) where
   iout : List Bond
   links : List Int
   sos : List β
-  slinks : List (List Int)
+  /-- `Shared_links`; `none` = the nil slice (`Init` looks at exactly that) -/
+  slinks : Option (List (List Int))
   deriving DecidableEq, Repr
 
 abbrev BM := BMOf Opcode SO
@@ -380,7 +381,8 @@ structure BMJson where
   iout : List Bond
   links : List Int
   sos : List (List Char)
-  slinks : List (List Int)
+  /-- `Shared_links`; `none` = the nil slice (`Init` looks at exactly that) -/
+  slinks : Option (List (List Int))
   deriving DecidableEq, Repr
 
 def BMOf.clearTransient {α β : Type} (b : BMOf α β) : BMOf α β :=
@@ -411,6 +413,22 @@ def dejsonerBM (reg : Registry) (j : BMJson) : Registry × LoadedBM :=
   (r.1, { rsize := j.rsize, domains := r.2, processors := j.processors, inputs := j.inputs,
           outputs := j.outputs, iin := j.iin, iout := j.iout, links := j.links,
           sos := j.sos.map instantiate, slinks := j.slinks })
+
+/-- `(*Bondmachine).Init()`: "an idempotent set of operations to ensure bondmachine consistency" —
+    a nil `Shared_links` becomes one empty list per processor; anything else is left alone.
+    cmd/bondmachine, cmd/basm, cmd/bm2basm, cmd/simfinetune call it right after `Dejsoner`. -/
+def initBM {α β : Type} (b : BMOf α β) : BMOf α β :=
+  match b.slinks with
+  | none => { b with slinks := some (List.replicate b.processors.length []) }
+  | some _ => b
+
+/-- loading as the tools do it: `Dejsoner` followed by `Init` -/
+def loadBM (reg : Registry) (j : BMJson) : Registry × LoadedBM :=
+  let r := dejsonerBM reg j
+  (r.1, initBM r.2)
+
+/-- the per-processor attachment lists, the nil slice read as "no list at all" -/
+def attachments {α β : Type} (b : BMOf α β) : List (List Int) := b.slinks.getD []
 
 def BMOf.check (b : BMOf (Option Opcode) (Option SO)) : Option (BMOf Opcode SO) :=
   match allSome (b.domains.map MachineOf.check), allSome b.sos with
